@@ -1147,11 +1147,11 @@ func c14Avoid(listed []c14Listed, fn, kind string, keys []string, strict bool) b
 			continue // input classes are matched by c14AvoidClass
 		}
 		if l.undefined && l.fn == fn {
-			return strict
+			return strict || len(keys) > 0 // the sweep keeps only the bare call of an undefined function
 		}
 		if l.testnot {
 			if l.family == c14Family(fn) && c14Has(keys, "test-not") {
-				return strict
+				return strict || len(keys) > 1
 			}
 			continue
 		}
@@ -1372,7 +1372,7 @@ func runC14(c *lib.Ctx) {
 	nSweep := len(cases)
 
 	// --- composite: random function, kind, element type, length 0..8, any keyword subset, in-range values
-	nRandom := c.Scale(40000, 600000)
+	nRandom := c.Scale(150000, 1500000)
 	pick := c14Rand{c.Rng}
 	for i := 0; i < nRandom; i++ {
 		f := funs[c.Rng.Intn(len(funs))]
